@@ -12,12 +12,23 @@ written. The theorems state the contract on that reference model; that every exe
 (any strategy, any requirement) behaves like the model is tied by the differential run
 (harness/inject/dbms/query/zz_verif_c23_test.go: cursor walks, selects, lookups replayed by the
 driver; reported `Keys()`/`Fixed()` checked against the rows as written by direct oracles).
-PARTIAL for keys/fixed: `Keys()`/`Fixed()` derivations of the code are not mirrored; proved are
-the facts those derivations rest on for where/minus/summarize (`key_*`, `fixed_*`).
+Keys and fixed values: `Gsu.QKeys.keysQ` (Model/QKeys.lean) and `Gsu.QFixed.fixedQ`
+(Model/QFixed.lean) mirror the `Keys()` / `Fixed()` derivations of every operator (table, where,
+project, rename, extend, summarize, sort, join, leftjoin, times, union, intersect, minus), the keys
+using the mirrored fixed values as the code does (`hasKey(by, keys, fixed)` for the join type,
+a where whose fixed values cover a key of a non-table source, the union's `disjoint` column).
+`keysQ_sound` / `fixedQ_sound` prove, by structural induction over all queries, that every key so
+derived is unique and every fixed entry holds in the rows as written. NOT mirrored (the model gives
+the source's keys, also valid): the where `singleton` the index analysis finds over a table and the
+where `conflict` (several analyses), both reported as `{{}}`; the `col <= ""` fixed rule. A rename
+`checkRename` rejects, a times with common columns, a where reading a missing column, an extend of
+an existing column, a whole-row summarize with `by` columns (all unconstructible) have no
+keys / fixed in the model. The differential run compares `Keys()` and `Fixed()` of the real
+untransformed query with `keysQ` / `fixedQ` (ops `keys`, `fixed`) outside the unmirrored cases.
 -/
-import Gsu.Proofs.QCursor
+import Gsu.Proofs.QKeys2
 namespace Gsu.Props.C23
-open Gsu.Proto Gsu.QVal Gsu.QExpr Gsu.Qry Gsu.QCursor
+open Gsu.Proto Gsu.QVal Gsu.QExpr Gsu.Qry Gsu.QCursor Gsu.QKeys Gsu.QFixed
 
 /-- reading forwards after a rewind returns every row once, in order -/
 theorem rewind_next_all (n : Nat) : drain n true (n + 1) .rewound = List.range n :=
@@ -70,23 +81,80 @@ theorem lookup_spec (rows : List Row) (sels : List (Col × Val)) :
   ⟨fun r h => lookup_some rows sels r h, lookup_none rows sels,
     fun key hk hs r r' h hr' hm => lookup_unique rows key sels hk hs r r' h hr' hm⟩
 
-/-- keys survive a restriction and a difference; the `by` columns are a key of a summarize
-(the facts `Keys()` rests on for these operators; the derivation code itself is tied by the run) -/
-theorem keys_unique_partial (db : Db) (q b : Query) (e : Expr) (cs by_ : List Col)
+/-- **the reported keys are unique**: if the stored tables are laid out in their declared columns
+(`WfDb`) and every key the schema declares consists of columns of its table and is unique in the
+table's rows (`DeclaredOk`), then every key the `Keys()` derivation (`keysQ`, all 13 operators)
+reports for a query (using the mirrored `Fixed()`, `fixedQ`, where the code does) consists of result
+columns and is unique in the rows of the query as written -/
+theorem keysQ_sound (db : Db) (declared : Nat → List (List Col)) (hdb : WfDb db)
+    (hd : DeclaredOk db declared) (q : Query) :
+    ∀ k, k ∈ keysQ db declared q → IsKey k (evalQ db q) ∧ Sub k (colsQ db q) :=
+  fun k hk => ⟨(keysQ_ok db declared hdb hd q k hk).2, (keysQ_ok db declared hdb hd q k hk).1⟩
+
+/-- **the reported fixed values hold**: if the stored tables are laid out in their declared columns,
+every entry (column, values) the `Fixed()` derivation (`fixedQ`, all 13 operators) reports for a
+query names a result column, and that column takes one of the values in every row as written -/
+theorem fixedQ_sound (db : Db) (hdb : WfDb db) (q : Query) :
+    ∀ c vs, (c, vs) ∈ fixedQ db q → FixedIn c vs (evalQ db q) ∧ c ∈ colsQ db q :=
+  fun c vs h => ⟨(fixedQ_ok db hdb q c vs h).2, (fixedQ_ok db hdb q c vs h).1⟩
+
+/-- the code's rule "`col <= ""` fixes `col` to `""`" (`addFixed`, not mirrored by `fixedQ`) does
+not hold: a number is `<= ""`, so the restriction keeps a row whose value is not `""`
+(confirmed on the Go side: `Simple()` keeps such rows, `Fixed()` reports `""`, execution drops them) -/
+theorem fixed_lte_empty_counter :
+    ∃ (db : Db) (q : Query) (c : Col),
+      ¬ FixedIn c [Val.empty] (evalQ db (.where_ q (.cmp .lte (.col c) (.const Val.empty)))) :=
+  ⟨[⟨[0], [[(0, .int 1)]]⟩], .table 0, 0, fun h => absurd (h [(0, .int 1)] (by decide)) (by decide)⟩
+
+/-- every row of a query as written is laid out in exactly the query's columns -/
+theorem rows_shaped (db : Db) (hdb : WfDb db) (q : Query) :
+    ∀ r, r ∈ evalQ db q → r.map (·.1) = colsQ db q :=
+  shaped_evalQ db hdb q
+
+/-- any key (reported or not) survives a restriction and a difference; the `by` columns are a key
+of a summarize (general facts, independent of the derivation `keysQ_sound` covers) -/
+theorem keys_preserved (db : Db) (q b : Query) (e : Expr) (cs by_ : List Col)
     (aggs : List (Col × Agg × Col)) :
     (IsKey cs (evalQ db q) → IsKey cs (evalQ db (.where_ q e))) ∧
     (IsKey cs (evalQ db q) → IsKey cs (evalQ db (.minus q b))) ∧
     IsKey by_ (evalQ db (.summarize q false by_ aggs)) :=
   ⟨key_where db q e cs, key_minus db q b cs, key_summarize db q by_ aggs⟩
 
-/-- `c is v` / `c in (…)` fix the column, and a fixed column stays fixed under a restriction -/
-theorem fixed_holds_partial (db : Db) (q : Query) (e : Expr) (c : Col) (v : Val) (vs : List Val) :
+/-- `c is v` / `c in (…)` fix the column, and any fixed column stays fixed under a restriction
+(general facts, independent of the derivation `fixedQ_sound` covers) -/
+theorem fixed_where (db : Db) (q : Query) (e : Expr) (c : Col) (v : Val) (vs : List Val) :
     FixedIn c [v] (evalQ db (.where_ q (.cmp .is (.col c) (.const v)))) ∧
     FixedIn c vs (evalQ db (.where_ q (.inl (.col c) vs))) ∧
     (FixedIn c vs (evalQ db q) → FixedIn c vs (evalQ db (.where_ q e))) :=
   ⟨fixed_where_is db q c v, fixed_where_in db q c vs, fixed_where_mono db q e c vs⟩
 
 -- non-vacuity
+-- t0(0,1) key (0); t1(1,2) keys (1),(2); t2(3) key ()
+example :
+    let db : Db := [⟨[0, 1], []⟩, ⟨[1, 2], []⟩, ⟨[3], []⟩]
+    let decl : Nat → List (List Col) := fun id =>
+      if id = 0 then [[0], [0, 1]] else if id = 1 then [[1], [2]] else [[]]
+    keysQ db decl (.table 0) = [[0]] ∧
+    keysQ db decl (.join (.table 0) (.table 1)) = [[0]] ∧            -- n:1
+    keysQ db decl (.join (.table 1) (.table 0)) = [[0]] ∧            -- 1:n
+    keysQ db decl (.leftjoin (.table 1) (.table 0)) = [[1, 0], [2, 0]] ∧
+    keysQ db decl (.times (.table 0) (.table 2)) = [[0]] ∧
+    keysQ db decl (.times (.table 0) (.table 1)) = [] ∧
+    keysQ db decl (.project (.table 1) [2]) = [[2]] ∧
+    keysQ db decl (.project (.table 0) [1]) = [[1]] ∧
+    keysQ db decl (.rename (.table 1) [1, 2] [5, 1]) = [[5], [1]] ∧
+    keysQ db decl (.summarize (.table 0) false [1] []) = [[1]] ∧
+    keysQ db decl (.summarize (.table 0) true [] [(7, .max, 0)]) = [[]] ∧
+    keysQ db decl (.intersect (.table 0) (.table 1)) = [[1]] ∧
+    keysQ db decl (.union (.table 0) (.table 1)) = [[0, 1, 2]] ∧
+    -- the fixed values: a disjoint union, a where that fixes a key, a join type through a fixed column
+    fixedQ db (.where_ (.table 0) (.and (.cmp .is (.const (.int 1)) (.col 0)) (.inl (.col 1) [.int 2, .int 3]))) =
+      [(0, [.int 1]), (1, [.int 2, .int 3])] ∧
+    keysQ db decl (.union (.where_ (.table 0) (.cmp .is (.col 1) (.const (.int 1))))
+      (.where_ (.table 0) (.cmp .is (.col 1) (.const (.int 2))))) = [[0, 1]] ∧
+    keysQ db decl (.where_ (.extend (.table 0) 9 (.col 1)) (.cmp .is (.col 0) (.const (.int 1)))) = [[]] ∧
+    keysQ db decl (.join (.where_ (.table 1) (.cmp .is (.col 2) (.const (.int 5)))) (.table 0)) = [[0]] := by
+  decide
 example : drain 3 true 4 .rewound = [0, 1, 2] ∧ drain 3 false 4 .rewound = [2, 1, 0] := by decide
 example : run 2 .rewound [some true, some false, some true, none, some false] =
     [some 0, none, none, some 1] := by decide
